@@ -692,6 +692,9 @@ class FD:
                 same = (left is right) if (left is None or right is None or isinstance(left, bool)
                                            or isinstance(right, bool)) else (type(left) is type(right)
                                                                               and left == right)
+                if same and left is not right and not _cached_by_cpython(left):
+                    # two separately created equal numbers / texts are two objects
+                    same = False
             return same if isinstance(op, ast.Is) else not same
         if isinstance(op, (ast.In, ast.NotIn)):
             if right is UNKNOWN or left is UNKNOWN:
@@ -1606,6 +1609,18 @@ class FD:
 
 _BUILTIN_TYPES = {'int': int, 'float': float, 'str': str, 'bool': bool, 'list': list, 'tuple': tuple,
                   'dict': dict, 'set': set, 'frozenset': frozenset, 'complex': complex, 'bytes': bytes, 'Ellipsis': Ellipsis}
+
+
+def _cached_by_cpython(v):
+    """Values of which CPython keeps one object: small ints, empty and one-character texts, identifier-like strings
+    (interned when they appear as constants or names)."""
+    if isinstance(v, int):
+        return -5 <= v <= 256
+    if isinstance(v, str):
+        return len(v) <= 1 or v.isidentifier()
+    if isinstance(v, (bytes, tuple, frozenset)):
+        return len(v) <= 1
+    return False
 
 
 def _b_type(x):
